@@ -1,4 +1,5 @@
 // slice `tour_mod`: Tour constructors and modifiers — structure (C01, C10, C12) and caches (C09)
+#![feature(allocator_api)]
 use vstd::prelude::*;
 use std::ops::Add;
 use std::ops::Sub;
@@ -472,6 +473,166 @@ pub open spec fn ends_ok(net: &Network, s: Seq<NodeIdx>) -> bool {
     &NodeIdx
 //@closure 1
     -> (c: Cost) requires self.wf(), self.network.has(*n) ensures c as int == self.network.node_cost(*n)
+//@end
+
+//@item solution/src/path.rs Path::new_trusted : trusted
+//@retname r
+//@sig
+    requires nw.wf(), all_in_net(&nw, node_sequence@),
+    ensures
+        all_depots(&nw, node_sequence@) ==> r is None,
+        !all_depots(&nw, node_sequence@) ==> r is Some && r.unwrap().node_sequence@ == node_sequence@ && r.unwrap().network == nw,
+//@end
+//@item solution/src/tour.rs Tour::position_of : trusted
+//@retname r
+//@sig
+    requires self.wf(), self.network.has(node),
+    ensures
+        r is Ok ==> 0 <= r.unwrap() < self.len() && self.nodes@[r.unwrap() as int] == node,
+        r is Err ==> !self.nodes@.contains(node),
+//@end
+//@item solution/src/tour.rs Tour::is_dummy
+//@retname r
+//@sig
+    ensures r == self.is_dummy,
+//@end
+//@item solution/src/tour.rs Tour::check_if_sequence_is_removable : trusted
+//@retname r
+//@sig
+    requires self.wf(), start_position < self.len(), end_position < self.len(),
+    ensures r is Ok <==> self.removable(start_position as int, end_position as int),
+//@end
+
+//@item solution/src/tour/modifications.rs Tour::remove
+//@retname r
+//@viter
+//@sig
+    requires self.wf(), self.caches_ok(), self.network.has(segment.start), self.network.has(segment.end), tour_len_ok(self.nodes@),
+    ensures
+        // C12: "Removing a segment yields the tour without exactly those nodes, is refused when it
+        // would strand a depot or leave an unconnectable gap"
+        r is Ok <==> self.has_node(segment.start) && self.has_node(segment.end)
+            && self.removable(self.index_of(segment.start), self.index_of(segment.end)), // @obl C12.remove.refusal
+        r is Ok ==> r->Ok_0.1.node_sequence@ == self.nodes@.subrange(self.index_of(segment.start), self.index_of(segment.end) + 1)
+            && (r->Ok_0.0 is Some ==> r->Ok_0.0->Some_0.nodes@ == self.pre(self.index_of(segment.start)) + self.suf(self.index_of(segment.end) + 1)), // @obl C12.remove.exactly_those_nodes
+        r is Ok && r->Ok_0.0 is Some ==> r->Ok_0.0->Some_0.is_dummy == self.is_dummy && r->Ok_0.0->Some_0.network == self.network
+            && r->Ok_0.0->Some_0.wf(), // @obl C01.remove.wf
+        r is Ok && r->Ok_0.0 is Some ==> r->Ok_0.0->Some_0.caches_ok(), // @obl C09.remove.caches
+//@closure-params 0
+    usize
+//@closure 0
+    -> (d: Duration) requires self.wf(), i < self.len() ensures d == self.network.sp_node(self.nodes@[i as int]).sp_duration()
+//@closure-params 1
+    usize
+//@closure 1
+    -> (d: Distance) requires self.wf(), i < self.len() ensures d == self.network.sp_node(self.nodes@[i as int]).sp_travel_distance()
+//@closure-params 2
+    &NodeIdx
+//@closure 2
+    -> (b: bool) requires self.network.has(*n) ensures b == (self.network.sp_node(*n) is Maintenance)
+//@closure-params 3
+    &NodeIdx
+//@closure 3
+    -> (b: bool) requires self.network.has(*n) ensures b == (self.network.sp_node(*n) is Maintenance)
+//@first
+        proof {
+            if !self.nodes@.contains(segment.start) { lemma_not_has_node(self, segment.start); }
+            if !self.nodes@.contains(segment.end) { lemma_not_has_node(self, segment.end); }
+        }
+//@before "let pos_seg_end"
+        proof { lemma_index_of(self, segment.start, pos_seg_start as int); }
+//@before "self.check_if_sequence_is_removable"
+        proof { lemma_index_of(self, segment.end, pos_seg_end as int); }
+//@before "let new_useful_duration"
+        broadcast use axiom_into_items_seqiter;
+        proof {
+            let net = &self.network;
+            let s = pos_seg_start as int; let e1 = pos_seg_end + 1;
+            lemma_split3(net, self.nodes@, s, e1);
+            let m = self.nodes@.subrange(s, e1);
+            assert(m =~= self.mid(s, e1));
+            lemma_useful_duration_sum(net, m);
+            lemma_service_distance_sum(net, m);
+            assert forall|i: int| 0 <= i < self.len() implies self.network.sp_node(#[trigger] self.nodes@[i]).wf() by {
+                assert(net.has(self.nodes@[i])); lemma_node_facts(net, self.nodes@[i]);
+            }
+            lemma_join2(net, self.pre(s), self.suf(e1));
+            if s > 0 && e1 < self.len() {
+                assert(net.has(self.nodes@[s - 1]) && net.has(self.nodes@[e1]));
+                lemma_leg_facts(net, self.nodes@[s - 1], self.nodes@[e1]);
+            }
+        }
+//@before "let new_service_distance"
+        assert(new_useful_duration == self.network.spec_useful_duration(self.pre(pos_seg_start as int) + self.suf(pos_seg_end + 1)));
+//@before "let new_dead_head_distance"
+        assert(new_service_distance == self.network.spec_service_distance(self.pre(pos_seg_start as int) + self.suf(pos_seg_end + 1)));
+        proof {
+            let net = &self.network;
+            let s = pos_seg_start as int; let e1 = pos_seg_end + 1;
+            let p = self.pre(s); let m = self.mid(s, e1); let u = self.suf(e1);
+            if self.is_dummy {
+                assert forall|i: int| 0 <= i < self.nodes@.len() implies (#[trigger] net.sp_node(self.nodes@[i])).sp_is_activity() by {}
+                lemma_psum_dist_activities(net, self.nodes@);
+            } else if s >= 1 && e1 <= self.len() - 1 {
+                assert forall|i: int| 0 <= i < m.len() implies (#[trigger] net.sp_node(m[i])).sp_is_activity() by {
+                    lemma_tour_kinds(self, s + i);
+                }
+                if psum(self.nodes@, net.f_leg_dist()) >= DBIG {
+                    lemma_remove_keeps_infinity(net, p, m, u);
+                }
+            }
+            lemma_mid_nonneg(net, p, m, u);
+        }
+//@before "let new_costs"
+        assert(self.is_dummy || (pos_seg_start >= 1 && pos_seg_end + 1 <= self.len() - 1) ==>
+            new_dead_head_distance == self.network.spec_dead_head_distance(self.pre(pos_seg_start as int) + self.suf(pos_seg_end + 1)));
+//@before "let mut tour_nodes"
+        assert(new_costs as int == self.network.spec_costs(self.pre(pos_seg_start as int) + self.suf(pos_seg_end + 1)));
+//@before "if tour_nodes.is_empty()"
+        proof {
+            let net = &self.network;
+            let s = pos_seg_start as int; let e1 = pos_seg_end + 1;
+            assert(tour_nodes@ =~= self.pre(s) + self.suf(e1));
+            assert(removed_nodes@ =~= self.nodes@.subrange(s, e1));
+            // the removed block contains an activity
+            let k: int = if s == 0 { 1 } else { s };
+            lemma_tour_kinds(self, k);
+            assert(removed_nodes@[k - s] == self.nodes@[k]);
+            assert(net.sp_node(removed_nodes@[k - s]).sp_is_activity());
+            assert forall|i: int| 0 <= i < removed_nodes@.len() implies #[trigger] net.has(removed_nodes@[i]) by { assert(net.has(self.nodes@[s + i])); }
+        }
+//@before "let visits_maintenance"
+        proof {
+            let net = &self.network;
+            let s = pos_seg_start as int; let e1 = pos_seg_end + 1;
+            let p = self.pre(s); let m = self.mid(s, e1); let u = self.suf(e1);
+            // both depots stay (or the tour is a dummy tour): the remaining tour is well formed
+            assert(self.is_dummy || (s >= 1 && e1 <= self.len() - 1));
+            assert forall|i: int| 0 <= i < tour_nodes@.len() implies #[trigger] net.has(tour_nodes@[i]) by {
+                if i < s { assert(net.has(self.nodes@[i])); } else { assert(net.has(self.nodes@[i + (e1 - s)])); }
+            }
+            assert forall|i: int| 0 <= i < tour_nodes@.len() - 1 implies #[trigger] net.reach(tour_nodes@[i], tour_nodes@[i + 1]) by {
+                if i < s - 1 { assert(net.reach(self.nodes@[i], self.nodes@[i + 1])); }
+                else if i == s - 1 { }
+                else { assert(net.reach(self.nodes@[i + (e1 - s)], self.nodes@[i + (e1 - s) + 1])); }
+            }
+            if self.is_dummy {
+                assert forall|i: int| 0 <= i < tour_nodes@.len() implies (#[trigger] net.sp_node(tour_nodes@[i])).sp_is_activity() by {
+                    if i < s { lemma_tour_kinds(self, i); } else { lemma_tour_kinds(self, i + (e1 - s)); }
+                }
+            } else {
+                let inner = tour_nodes@.subrange(1, tour_nodes@.len() - 1);
+                assert forall|i: int| 0 <= i < inner.len() implies (#[trigger] net.sp_node(inner[i])).sp_is_activity() by {
+                    if i + 1 < s { lemma_tour_kinds(self, i + 1); } else { lemma_tour_kinds(self, i + 1 + (e1 - s)); }
+                }
+                lemma_tour_kinds(self, 0); lemma_tour_kinds(self, self.len() - 1);
+            }
+            lemma_vm_concat(net, p + m, u);
+            lemma_vm_concat(net, p, m);
+            lemma_vm_concat(net, p, u);
+            assert(self.nodes@ =~= p + m + u);
+        }
+//@attr verifier::rlimit(100)
 //@end
 } // verus!
 fn main() {}
